@@ -6,4 +6,4 @@ From Blue Require Import Lsm.Model Crash.Model.
 Require Import ExtrOcamlBasic.
 Extraction Language OCaml.
 Extraction "../ocaml/crash/gen_crash.ml" open_prog op_prog op_next run_prog prefix_state image_a image_b
-  disk_entries all_entries acceptedb vis issued xop_prog xnext_ok xnext_err same_relb fault_next calls_of mani_strs lookup N.of_nat N.to_nat N.add N.mul N.div_eucl.
+  disk_entries all_entries acceptedb vis issued xop_prog xnext_ok xnext_err hits_mani same_relb fault_next calls_of mani_strs lookup N.of_nat N.to_nat N.add N.mul N.div_eucl.
